@@ -248,10 +248,14 @@ func (ex *Exec) assignStmt(st *State, s *ast.AssignStmt, k func(*State)) {
 		})
 		return
 	}
+	var afterAssign func(*State) // alias-link bookkeeping, runs before the continuation
 	assignAll := func(st *State, vals []Val) {
 		var rec func(st *State, i int)
 		rec = func(st *State, i int) {
 			if i >= len(s.Lhs) {
+				if afterAssign != nil {
+					afterAssign(st)
+				}
 				k(st)
 				return
 			}
@@ -282,6 +286,7 @@ func (ex *Exec) assignStmt(st *State, s *ast.AssignStmt, k func(*State)) {
 						key = ex.convert(st3, key, under(ex.typeOf(r.X)).(*types.Map).Key())
 						ok := app("select", app("m-dom", m.T), key.T)
 						v := Val{T: ite(ok, app("select", app("m-val", m.T), key.T), zeroOf(m.S.Elem)), S: m.S.Elem, GoT: elemGoType(m.GoT)}
+						afterAssign = func(stA *State) { ex.linkInnerMap(stA, s.Lhs[0], r.X, key) }
 						assignAll(st3, []Val{v, {T: ok, S: SBool, GoT: types.Typ[types.Bool]}})
 					})
 				})
@@ -312,12 +317,106 @@ func (ex *Exec) assignStmt(st *State, s *ast.AssignStmt, k func(*State)) {
 		})
 		return
 	}
+	if len(s.Rhs) == 1 && len(s.Lhs) == 1 {
+		// x := E[k] / x = E[k] with a map-typed element: x denotes E[k] (if present);
+		// E[k] = x: from now on E[k] denotes x
+		if r, ok := unparen(s.Rhs[0]).(*ast.IndexExpr); ok {
+			if mt, ok := under(ex.typeOf(r.X)).(*types.Map); ok {
+				if _, inner := under(mt.Elem()).(*types.Map); inner {
+					ex.eval(st, r.X, func(st2 *State, m Val) {
+						ex.eval(st2, r.Index, func(st3 *State, key Val) {
+							key = ex.convert(st3, key, mt.Key())
+							ok := app("select", app("m-dom", m.T), key.T)
+							v := Val{T: ite(ok, app("select", app("m-val", m.T), key.T), zeroOf(m.S.Elem)), S: m.S.Elem, GoT: elemGoType(m.GoT)}
+							afterAssign = func(stA *State) { ex.linkInnerMap(stA, s.Lhs[0], r.X, key) }
+							assignAll(st3, []Val{v})
+						})
+					})
+					return
+				}
+			}
+		}
+		if l, ok := unparen(s.Lhs[0]).(*ast.IndexExpr); ok && !define {
+			if mt, ok := under(ex.typeOf(l.X)).(*types.Map); ok {
+				if id, isId := unparen(s.Rhs[0]).(*ast.Ident); isId {
+					if _, inner := under(mt.Elem()).(*types.Map); inner {
+						if obj, ok := ex.info.Uses[id].(*types.Var); ok {
+							afterAssign = func(stA *State) {
+								ex.eval(stA, l.Index, func(stB *State, key Val) {
+									key = ex.convert(stB, key, mt.Key())
+									stA.setLink(obj, &aliasLink{base: l.X, text: nodeString(ex.fset, l.X), key: key})
+								})
+							}
+						}
+					}
+				}
+			}
+		}
+	}
 	ex.evalList(st, s.Rhs, assignAll)
 }
 
 // assignTo writes v to the location denoted by lhs.
+// linkInnerMap records that the local map variable on the lhs denotes the element base[key].
+func (ex *Exec) linkInnerMap(st *State, lhs ast.Expr, base ast.Expr, key Val) {
+	id, ok := unparen(lhs).(*ast.Ident)
+	if !ok || id.Name == "_" {
+		return
+	}
+	obj := ex.info.Defs[id]
+	if obj == nil {
+		obj = ex.info.Uses[id]
+	}
+	if obj == nil {
+		return
+	}
+	if _, isMap := under(obj.Type()).(*types.Map); !isMap {
+		return
+	}
+	st.setLink(obj, &aliasLink{base: base, text: nodeString(ex.fset, base), key: key})
+}
+
+func (st *State) setLink(obj types.Object, l *aliasLink) {
+	if st.aliasLinks == nil {
+		st.aliasLinks = map[types.Object]*aliasLink{}
+	}
+	if l == nil {
+		delete(st.aliasLinks, obj)
+		return
+	}
+	st.aliasLinks[obj] = l
+}
+
+// assignToNoLink is assignTo without alias-link bookkeeping (used for the write-back itself).
+func (ex *Exec) assignToNoLink(st *State, lhs ast.Expr, v Val, k func(*State)) {
+	ex.noLink++
+	ex.assignTo(st, lhs, v, func(st2 *State) {
+		ex.noLink--
+		k(st2)
+		ex.noLink++
+	})
+	ex.noLink--
+}
+
 func (ex *Exec) assignTo(st *State, lhs ast.Expr, v Val, k func(*State)) {
 	lhs = unparen(lhs)
+	if ex.noLink == 0 && len(st.aliasLinks) > 0 {
+		switch l := lhs.(type) {
+		case *ast.Ident:
+			// any other assignment to a linked variable ends the link
+			if obj := ex.info.Uses[l]; obj != nil {
+				st.setLink(obj, nil)
+			}
+		case *ast.IndexExpr:
+			// E[k2] = something: links through E whose key may be k2 are no longer certain
+			text := nodeString(ex.fset, l.X)
+			for obj, lk := range st.aliasLinks {
+				if lk.text == text {
+					st.setLink(obj, nil)
+				}
+			}
+		}
+	}
 	switch l := lhs.(type) {
 	case *ast.Ident:
 		if l.Name == "_" {
@@ -386,10 +485,35 @@ func (ex *Exec) assignTo(st *State, lhs ast.Expr, v Val, k func(*State)) {
 		xt := ex.typeOf(l.X)
 		switch u := under(xt).(type) {
 		case *types.Map:
+			var link *aliasLink
 			if id, ok := unparen(l.X).(*ast.Ident); ok {
 				if obj, ok := ex.info.Uses[id].(*types.Var); ok && ex.aliasMapVars[obj] {
-					ex.oof(l.Pos(), "write through map variable %s that may alias another map (it was read out of a map/field or copied); aliasing of maps is not modelled", id.Name)
+					link = st.aliasLinks[obj]
+					if link == nil {
+						ex.oof(l.Pos(), "write through map variable %s that may alias another map (it was read out of a map/field or copied); aliasing of maps is not modelled", id.Name)
+					}
 				}
+			}
+			if link != nil {
+				// x denotes the same map object as E[k]: update x and store it back into E[k]
+				ex.eval(st, l.X, func(st2 *State, m Val) {
+					ex.eval(st2, l.Index, func(st3 *State, key Val) {
+						key = ex.convert(st3, key, u.Key())
+						nm := ex.share(st3, mapStore(ex.share(st3, m), key.T, ex.convert(st3, v, u.Elem()).T))
+						nm.GoT = xt
+						obj := ex.info.Uses[unparen(l.X).(*ast.Ident)]
+						ex.writeVar(st3, obj, nm)
+						ex.eval(st3, link.base, func(st4 *State, outer Val) {
+							no := ex.share(st4, mapStore(ex.share(st4, outer), link.key.T, nm.T))
+							no.GoT = ex.typeOf(link.base)
+							ex.assignToNoLink(st4, link.base, no, func(st5 *State) {
+								st5.setLink(obj, link)
+								k(st5)
+							})
+						})
+					})
+				})
+				return
 			}
 			ex.eval(st, l.X, func(st2 *State, m Val) {
 				ex.eval(st2, l.Index, func(st3 *State, key Val) {
